@@ -26,6 +26,7 @@ import (
 	"os"
 	"runtime"
 	"sort"
+	"strings"
 	"sync"
 	"sync/atomic"
 	"testing"
@@ -125,9 +126,10 @@ type Case struct {
 	Resched bool     `json:"resched"`
 	Recycle *Recycle `json:"recycle,omitempty"`
 	// Far, Dup: further program shapes, see shapes_test.go.
-	Far  *Far `json:"far,omitempty"`
-	Dup  *Dup `json:"dup,omitempty"`
-	Reps int  `json:"reps"`
+	Far   *Far   `json:"far,omitempty"`
+	Dup   *Dup   `json:"dup,omitempty"`
+	Multi *Multi `json:"multi,omitempty"`
+	Reps  int    `json:"reps"`
 }
 
 func mustJSON(v any) []byte {
@@ -185,7 +187,11 @@ func genCase(t *rapid.T, mode string) Case {
 	c.Periodic = rapid.IntRange(0, 9).Draw(t, "periodic") < 3
 	c.JobDurUs = rapid.SampledFrom([]int64{0, 0, 0, 100, 500, 1500}).Draw(t, "jobDur")
 	c.Resched = rapid.Bool().Draw(t, "resched")
-	switch rapid.SampledFrom([]string{"", "", "", "", "", "", "far", "dup", "", "", "", ""}).Draw(t, "shape") {
+	switch rapid.SampledFrom([]string{"", "", "", "", "", "", "far", "dup", "multi", "", "", "", ""}).Draw(t, "shape") {
+	case "multi":
+		genMulti(t, &c)
+		c.SyncTimer = rapid.Bool().Draw(t, "syncTimer")
+		return c
 	case "far":
 		genFar(t, &c)
 		c.SyncTimer = rapid.Bool().Draw(t, "syncTimer")
@@ -229,6 +235,21 @@ func genCase(t *rapid.T, mode string) Case {
 			case "ctx":
 				c.Recycle.OldDue = "ctx"
 			}
+		}
+		return c
+	}
+	if !c.Periodic && rapid.SampledFrom([]bool{false, false, false, false, false, true, false, false, false, false}).Draw(t, "runVsCancel") {
+		// RunJob and CancelJob released together right after ScheduleJob (M1: one after
+		// the other without yielding)
+		first := rapid.SampledFrom([]int64{3000, 30000}).Draw(t, "first")
+		c.TicksUs = []int64{first}
+		c.SyncTimer = rapid.Bool().Draw(t, "syncTimer")
+		c.Ops = []Op{
+			{Kind: "run", Mult: 1, OffUs: -first - 1000},
+			{Kind: "cancel", Mult: rapid.IntRange(1, 3).Draw(t, "cancels"), OffUs: -first - 1000},
+		}
+		if rapid.Bool().Draw(t, "cancelFirst") {
+			c.Ops[0], c.Ops[1] = c.Ops[1], c.Ops[0]
 		}
 		return c
 	}
@@ -299,6 +320,22 @@ func sanitise(c *Case) {
 	}
 	if c.HorizonUs > 2000000 {
 		c.HorizonUs = 2000000
+	}
+	if c.Multi != nil {
+		c.Far, c.Dup, c.Recycle, c.Ops, c.Resched, c.Periodic = nil, nil, nil, nil, false, false
+		seen := map[string]bool{}
+		var ns []string
+		for _, n := range c.Multi.Names {
+			if n != "" && !seen[n] {
+				seen[n] = true
+				ns = append(ns, n)
+			}
+		}
+		if len(ns) == 0 {
+			ns = []string{"Other job"}
+		}
+		c.Multi.Names = ns
+		c.TicksUs = []int64{40000}
 	}
 	if c.Far != nil {
 		c.Dup, c.Recycle, c.Ops = nil, nil, nil
@@ -387,6 +424,7 @@ type obs struct {
 	stuckProbe string
 	rc         *recycleObs
 	sh         *shapeObs
+	mu         *multiObs
 	// parkedAt: M2 with a runtime at least 20ms ahead: the instant at which the
 	// job goroutine was seen blocked in its select (-1: not seen).
 	parkedAt time.Duration
@@ -670,7 +708,85 @@ func stuckBlocked(gs []schedGoroutine) map[string]schedGoroutine {
 	return m
 }
 
+// exitTB lets a watchdog goroutine report through ev.Violation (which records and
+// flushes the violation before calling Fatalf) and then end the process: the
+// driver counts a non-zero exit with a recorded violation as that violation.
+type exitTB struct{}
+
+func (exitTB) Fatalf(format string, args ...any) {
+	fmt.Fprintf(os.Stderr, format+"\n", args...)
+	os.Exit(1)
+}
+func (exitTB) Logf(string, ...any) {}
+
+// currentCase is the program being executed (for the watchdog's replay file).
+var currentCase atomic.Pointer[Case]
+
+// blockedAPICalls lists goroutines that are inside a scheduler API call made by
+// callOp and parked on a channel operation in scheduler code.
+func blockedAPICalls() map[string]schedGoroutine {
+	buf := make([]byte, 1<<18)
+	n := runtime.Stack(buf, true)
+	m := map[string]schedGoroutine{}
+	for _, g := range bytes.Split(buf[:n], []byte("\n\n")) {
+		nl := bytes.IndexByte(g, '\n')
+		if nl < 0 || !bytes.HasPrefix(g, []byte("goroutine ")) {
+			continue
+		}
+		head, own := g[:nl], g[nl+1:]
+		if i := bytes.Index(own, []byte("created by ")); i >= 0 {
+			own = own[:i]
+		}
+		if !bytes.Contains(own, []byte("verifharness/c02.callOp")) {
+			continue
+		}
+		top := own
+		if i := bytes.IndexByte(top, '\n'); i >= 0 {
+			top = top[:i]
+		}
+		if !bytes.Contains(top, []byte(schedPkg)) {
+			continue
+		}
+		st := ""
+		if i, j := bytes.IndexByte(head, '['), bytes.LastIndexByte(head, ']'); i >= 0 && j > i {
+			st = string(head[i+1 : j])
+			if k := strings.IndexByte(st, ','); k >= 0 {
+				st = st[:k]
+			}
+		}
+		if st != "chan send" && st != "chan receive" && st != "select" {
+			continue
+		}
+		f := bytes.Fields(head)
+		if len(f) >= 2 {
+			m[string(f[1])] = schedGoroutine{id: string(f[1]), state: st, inScheduler: true, text: string(g)}
+		}
+	}
+	return m
+}
+
+// callWatchdog runs if a scheduler API call has not returned after stuckAfter: a
+// call that is parked on a channel operation inside scheduler code, and still is
+// stuckConfirm later, never returns (and, holding the job's state lock, keeps the
+// job from finishing).  It is reported and the process ends; go-deadlock would
+// end it without a report 30 s later.
+func callWatchdog(kind string) {
+	b1 := blockedAPICalls()
+	if len(b1) == 0 {
+		return
+	}
+	time.Sleep(stuckConfirm)
+	b2 := blockedAPICalls()
+	for id, g := range b1 {
+		if g2, ok := b2[id]; ok && g2.state == g.state {
+			ev.Violation(exitTB{}, "call-blocked:"+kind, currentCase.Load(), "a scheduler call did not return: it is parked [%s] inside scheduler code and stayed there from %v after it began; goroutine: %s", g2.state, stuckAfter, g2.text)
+		}
+	}
+}
+
 func callOp(s *advanced.Service, parentCancel context.CancelFunc, kind, ctxMode string, t0 time.Time, r *opRes) {
+	wd := time.AfterFunc(stuckAfter, func() { callWatchdog(kind) })
+	defer wd.Stop()
 	defer func() {
 		if p := recover(); p != nil {
 			r.panicked = fmt.Sprint(p)
@@ -710,6 +826,9 @@ func callOp(s *advanced.Service, parentCancel context.CancelFunc, kind, ctxMode 
 // runRep executes the program once.  base is the goroutine count of the idle
 // process (including the canary).
 func runRep(c *Case, base int, can *canary, leaked map[string]bool, leakedSelect int) (*obs, error) {
+	if c.Multi != nil {
+		return runMulti(c, base, can, leaked, leakedSelect)
+	}
 	if c.Far != nil {
 		return runFar(c, base, can, leaked, leakedSelect)
 	}
@@ -1226,7 +1345,9 @@ func judgeOneOff(c *Case, o *obs) []verdict {
 	}
 	if n == 0 {
 		switch {
-		case f.okRun > 0 && !ctxCancelIssued(o) && !cancelAfterClaim(o):
+		case f.okRun > 0 && !ctxCancelIssued(o):
+			// whatever a CancelJob said: "an early-run request that reports success
+			// means the job runs"
 			vs = append(vs, verdict{"oneoff-dropped-after-early-run", "RunJob returned nil, the parent context was not cancelled, and the job never ran"})
 		case !f.cancelOK && f.anyRunNow:
 			vs = append(vs, verdict{"oneoff-dropped-after-early-run", "the job was not cancelled, an early-run request was issued, and the job never ran"})
@@ -1239,29 +1360,6 @@ func judgeOneOff(c *Case, o *obs) []verdict {
 	}
 	vs = append(vs, judgeNameFree(c, o)...)
 	return vs
-}
-
-// cancelAfterClaim: a cancellation that may have taken effect (CancelJob returned
-// nil, or CancelJobIfExists) ended after the first successful RunJob began.  The
-// real scheduler removes a claimed one-off job from its table, so such a cancel
-// finds nothing; the oracle nevertheless does not insist on the run in that case,
-// because the statement does not say which of the two requests prevails.
-func cancelAfterClaim(o *obs) bool {
-	first := time.Duration(-1)
-	for _, r := range o.ops {
-		if r.kind == "run" && r.err == nil && r.panicked == "" && (first < 0 || r.start < first) {
-			first = r.start
-		}
-	}
-	if first < 0 {
-		return false
-	}
-	for _, r := range o.ops {
-		if ((r.kind == "cancel" && r.err == nil) || r.kind == "cancelif") && r.end >= first {
-			return true
-		}
-	}
-	return false
 }
 
 func ctxCancelIssued(o *obs) bool {
@@ -1542,7 +1640,7 @@ func setRuntime(c *Case) func() {
 }
 
 func nontrivial(c *Case) bool {
-	if c.Recycle != nil || c.Far != nil || c.Dup != nil {
+	if c.Recycle != nil || c.Far != nil || c.Dup != nil || c.Multi != nil {
 		return true
 	}
 	for _, op := range c.Ops {
@@ -1595,6 +1693,23 @@ func labels(c *Case) []string {
 	if c.Far != nil {
 		ls = append(ls, "far-future-runtime", "far-future-runtime:"+c.Far.When, "far-future-runtime:follow-"+c.Far.Follow)
 	}
+	if c.Multi != nil {
+		ls = append(ls, "canceljobs-by-prefix")
+		m := 0
+		for _, n := range c.Multi.Names {
+			if strings.HasPrefix(n, c.Multi.Prefix) {
+				m++
+			}
+		}
+		switch {
+		case m == 0:
+			ls = append(ls, "canceljobs-by-prefix:matches-none")
+		case m == len(c.Multi.Names):
+			ls = append(ls, "canceljobs-by-prefix:matches-all")
+		default:
+			ls = append(ls, "canceljobs-by-prefix:matches-some")
+		}
+	}
 	if c.Dup != nil {
 		ls = append(ls, "concurrent-schedule-same-name", "concurrent-schedule-same-name:follow-"+c.Dup.Follow)
 	}
@@ -1628,6 +1743,7 @@ func check(t ev.TB, c *Case) {
 	restore := setRuntime(c)
 	defer restore()
 
+	currentCase.Store(c)
 	nt := nontrivial(c)
 	ev.Case(nt, ev.Hash(c), labels(c)...)
 	if nt {
@@ -1704,6 +1820,8 @@ func check(t ev.TB, c *Case) {
 		}
 		var vs []verdict
 		switch {
+		case c.Multi != nil:
+			vs = judgeMulti(c, o)
 		case c.Far != nil:
 			vs = judgeFar(c, o)
 		case c.Dup != nil:
@@ -1721,7 +1839,7 @@ func check(t ev.TB, c *Case) {
 		if o.perturbed {
 			perturbed++
 		}
-		if c.Far != nil || c.Dup != nil {
+		if c.Far != nil || c.Dup != nil || c.Multi != nil {
 			// own judgement, no "clearly before" bookkeeping
 		} else if _, ok := clearCancel(c, o); ok {
 			clearCancels++
